@@ -25,8 +25,8 @@ class Prop(BaseProp):
             "run under explicit schedules through the guarded schedule points; after every step the result, the tracked state and a digest of the cache files are compared with the model, which is "
             "given the directory listing order and the eviction victims the implementation chose; every hit is compared with the ground truth; "
             "non-trivial = at least 4 operations; distinct by sha256 of the case text")
-    kinds = ["plantkeys", "dmgcap", "seq", "evict", "damage", "damage", "known", "openwhile", "conc", "capchange", "exactcap", "race"]
-    per_kind_override = {"plantkeys": 3, "dmgcap": 6}
+    kinds = ["plantkeys", "dmgcap", "dmgsub", "forgehdr", "seq", "evict", "damage", "damage", "known", "openwhile", "conc", "capchange", "exactcap", "race"]
+    per_kind_override = {"plantkeys": 3, "dmgcap": 6, "dmgsub": 8, "forgehdr": 8}
     allow_known = True
 
     def streams(self, rng, tier):
